@@ -2,7 +2,7 @@
 #ifndef DRV_UTIL_H
 #define DRV_UTIL_H
 /* the guarded trace points of /repo (-DOISF_LIBHTP_VERIF) call this; bit id is set when point id fired */
-static unsigned verif_trace_bits;
+static __thread unsigned verif_trace_bits;
 void htp_verif_trace(int id) { if (id >= 0 && id < 32) verif_trace_bits |= 1u << id; }
 /* every suite prints through drv_out (thread-local; stdout by default) so that drivers can capture per-connection output */
 static __thread FILE *drv_out;
